@@ -15,17 +15,23 @@ package main
 //	         plants = off:hex,off:hex…  (bytes planted into the filler)
 //	result : off=<pos|none> <exit=<rc> files=ok | fall | fail | misfound | …>
 //
+//	payload: proc <tree> <rc> <arg-hex,…|->   (the real CLI binary of the tree under test, packed,
+//	         started as a child process with these arguments, stdin at EOF)
+//	result : proc srcmarker=<0|1> exit=<code> entry=<ran|notrun> clean=<0|1>
+//
 // `harness C20 -tool extract <out.lean>` regenerates the geometry facts
 // (lean/Ecal/Gen/C20.lean) from cli/tool/pack.go with go/ast.
 
 import (
 	"bytes"
+	"context"
 	"fmt"
 	"go/ast"
 	"go/parser"
 	"go/token"
 	"io"
 	"os"
+	"os/exec"
 	"path/filepath"
 	"sort"
 	"strconv"
@@ -55,7 +61,10 @@ type c20Facts struct {
 	keepSrc      string
 	skipFuncs    []string // unicode.X functions used in RunPackedBinary
 	hasSkipLoop  bool
-	literalWhole bool // packmarker is one string literal (then the binary itself contains it)
+	literalWhole bool     // packmarker is one string literal (then the binary itself contains it)
+	problems     []string // pieces of the source the extractor could not translate
+	mainFirst    bool     // first statement of main() is the unconditional call tool.RunPackedBinary()
+	mainSrc      string
 }
 
 type c20Eval struct {
@@ -83,6 +92,9 @@ func (e *c20Eval) str(x ast.Expr) ([][]byte, error) {
 		}
 		return [][]byte{[]byte(s)}, nil
 	case *ast.Ident:
+		if v.Name == "packmarker" && e.facts.marker != nil {
+			return [][]byte{e.facts.marker}, nil
+		}
 		d, ok := e.vars[v.Name]
 		if !ok {
 			return nil, fmt.Errorf("unknown identifier %v", v.Name)
@@ -108,6 +120,29 @@ func (e *c20Eval) str(x ast.Expr) ([][]byte, error) {
 		}
 		return append(a, b...), nil
 	case *ast.CallExpr:
+		if sel, ok := v.Fun.(*ast.SelectorExpr); ok && len(v.Args) == 1 {
+			if x, ok := sel.X.(*ast.Ident); ok && x.Name == "strings" {
+				var fn func(string) string
+				switch sel.Sel.Name {
+				case "TrimSpace":
+					fn = strings.TrimSpace
+				case "ToUpper":
+					fn = strings.ToUpper
+				case "ToLower":
+					fn = strings.ToLower
+				}
+				if fn != nil {
+					p, err := e.str(v.Args[0])
+					if err != nil {
+						return nil, err
+					}
+					return [][]byte{[]byte(fn(string(bytes.Join(p, nil))))}, nil
+				}
+			}
+		}
+		if id, ok := v.Fun.(*ast.Ident); ok && id.Name == "string" && len(v.Args) == 1 {
+			return e.str(v.Args[0])
+		}
 		if sel, ok := v.Fun.(*ast.SelectorExpr); ok && sel.Sel.Name == "Sprintf" && len(v.Args) >= 1 {
 			fp, err := e.str(v.Args[0])
 			if err != nil {
@@ -233,6 +268,20 @@ func c20NodeText(fset *token.FileSet, src []byte, n ast.Node) string {
 	return strings.Join(strings.Fields(string(src[fset.Position(n.Pos()).Offset:fset.Position(n.End()).Offset])), " ")
 }
 
+// Reference values (the geometry the theorems were developed against). They are
+// used ONLY when a piece of pack.go can no longer be translated; every such use is
+// recorded in facts.problems, which ends up as `extractProblems` in the generated
+// Lean file and breaks the obligation `extract_complete` — the sweep still runs.
+var c20Ref = struct {
+	marker        string
+	b1, b2        int
+	bufSize, keep int
+}{"\n####ECALSRC####\n", 4096, 28, 4124, 16}
+
+// c20Extract reads the scanner geometry from cli/tool/pack.go and the call of
+// RunPackedBinary from cli/ecal.go. It only fails if pack.go cannot be read or parsed
+// (then the harness does not build either); everything it cannot translate becomes an
+// entry of facts.problems and the reference value is used instead.
 func c20Extract() (*c20Facts, error) {
 	path := filepath.Join(repoDir(), "cli", "tool", "pack.go")
 	src, err := os.ReadFile(path)
@@ -245,6 +294,9 @@ func c20Extract() (*c20Facts, error) {
 		return nil, err
 	}
 	f := &c20Facts{}
+	problem := func(format string, a ...interface{}) {
+		f.problems = append(f.problems, oneLine(fmt.Sprintf(format, a...)))
+	}
 	ev := &c20Eval{fset: fset, vars: map[string]ast.Expr{}, facts: f}
 	var run *ast.FuncDecl
 	for _, d := range file.Decls {
@@ -267,35 +319,40 @@ func c20Extract() (*c20Facts, error) {
 			}
 		}
 	}
-	if run == nil {
-		return nil, fmt.Errorf("RunPackedBinary not found in %v", path)
-	}
-	me, ok := ev.vars["packmarkerend"]
-	if ok {
-		p, err := ev.str(me)
-		if err != nil {
-			return nil, err
+	if me, ok := ev.vars["packmarkerend"]; ok {
+		if p, err := ev.str(me); err == nil {
+			f.markerEnd = bytes.Join(p, nil)
+		} else {
+			problem("packmarkerend: %v", err)
 		}
-		f.markerEnd = bytes.Join(p, nil)
 	}
-	pm, ok := ev.vars["packmarker"]
-	if !ok {
-		return nil, fmt.Errorf("packmarker not found")
+	if pm, ok := ev.vars["packmarker"]; ok {
+		f.pieceSrc = c20NodeText(fset, src, pm)
+		if f.pieces, err = ev.str(pm); err != nil {
+			problem("packmarker: %v", err)
+			f.pieces = nil
+		}
+		_, f.literalWhole = pm.(*ast.BasicLit)
+	} else {
+		problem("package variable packmarker not found")
 	}
-	if f.pieces, err = ev.str(pm); err != nil {
-		return nil, err
+	if f.pieces == nil {
+		f.pieces = [][]byte{[]byte(c20Ref.marker)}
+		f.pieceSrc += " (NOT TRANSLATED: reference value)"
 	}
-	f.pieceSrc = c20NodeText(fset, src, pm)
 	f.marker = bytes.Join(f.pieces, nil)
-	_, f.literalWhole = pm.(*ast.BasicLit)
 	for _, nm := range []string{"b1", "b2"} {
-		d, ok := ev.vars[nm]
-		if !ok {
-			return nil, fmt.Errorf("%v not found", nm)
+		ref := c20Ref.b1
+		if nm == "b2" {
+			ref = c20Ref.b2
 		}
-		n, s, err := ev.num(d)
-		if err != nil {
-			return nil, err
+		n, s := ref, fmt.Sprint(ref)
+		if d, ok := ev.vars[nm]; !ok {
+			problem("package variable %v not found", nm)
+		} else if n2, s2, err := ev.num(d); err != nil {
+			problem("%v: %v", nm, err)
+		} else {
+			n, s = n2, s2
 		}
 		if nm == "b1" {
 			f.b1, f.b1Lean = n, s
@@ -303,86 +360,132 @@ func c20Extract() (*c20Facts, error) {
 			f.b2, f.b2Lean = n, s
 		}
 	}
-	// inside RunPackedBinary: the buffer handed to the first f.Read, `keep := …`, unicode.X calls
+	// inside RunPackedBinary: the buffer handed to the first f.Read, the number of bytes
+	// kept (`overlap = copy(buf, window[len(window)-K:])`, `K := …`), unicode.X calls
 	bufName := ""
 	makes := map[string]ast.Expr{}
 	var keepExpr ast.Expr
 	keepName := ""
 	defines := map[string]ast.Expr{}
 	funcs := map[string]bool{}
-	ast.Inspect(run.Body, func(n ast.Node) bool {
-		switch v := n.(type) {
-		case *ast.AssignStmt:
-			for i, l := range v.Lhs {
-				id, ok := l.(*ast.Ident)
-				if !ok || i >= len(v.Rhs) {
-					continue
-				}
-				if c, ok := v.Rhs[i].(*ast.CallExpr); ok {
-					if fn, ok := c.Fun.(*ast.Ident); ok && fn.Name == "make" && len(c.Args) >= 2 {
-						makes[id.Name] = c.Args[1]
+	if run == nil {
+		problem("func RunPackedBinary not found")
+	} else {
+		ast.Inspect(run.Body, func(n ast.Node) bool {
+			switch v := n.(type) {
+			case *ast.AssignStmt:
+				for i, l := range v.Lhs {
+					id, ok := l.(*ast.Ident)
+					if !ok || i >= len(v.Rhs) {
+						continue
+					}
+					if c, ok := v.Rhs[i].(*ast.CallExpr); ok {
+						if fn, ok := c.Fun.(*ast.Ident); ok && fn.Name == "make" && len(c.Args) >= 2 {
+							makes[id.Name] = c.Args[1]
+						}
+					}
+					if v.Tok == token.DEFINE {
+						if _, dup := defines[id.Name]; !dup {
+							defines[id.Name] = v.Rhs[i]
+						}
 					}
 				}
-				if v.Tok == token.DEFINE {
-					if _, dup := defines[id.Name]; !dup {
-						defines[id.Name] = v.Rhs[i]
+			case *ast.CallExpr:
+				if fn, ok := v.Fun.(*ast.Ident); ok && fn.Name == "copy" && len(v.Args) == 2 && keepName == "" {
+					if sl, ok := v.Args[1].(*ast.SliceExpr); ok && sl.High == nil {
+						if be, ok := sl.Low.(*ast.BinaryExpr); ok && be.Op == token.SUB {
+							if k, ok := be.Y.(*ast.Ident); ok {
+								keepName = k.Name
+							}
+						}
 					}
 				}
-			}
-		case *ast.CallExpr:
-			// overlap = copy(buf, window[len(window)-K:]) : K names the number of bytes kept
-			if fn, ok := v.Fun.(*ast.Ident); ok && fn.Name == "copy" && len(v.Args) == 2 && keepName == "" {
-				if sl, ok := v.Args[1].(*ast.SliceExpr); ok && sl.High == nil {
-					if be, ok := sl.Low.(*ast.BinaryExpr); ok && be.Op == token.SUB {
-						if k, ok := be.Y.(*ast.Ident); ok {
-							keepName = k.Name
+				if sel, ok := v.Fun.(*ast.SelectorExpr); ok {
+					if x, ok := sel.X.(*ast.Ident); ok {
+						if x.Name == "unicode" {
+							funcs[sel.Sel.Name] = true
+						}
+						if sel.Sel.Name == "Read" && bufName == "" && len(v.Args) == 1 {
+							a := v.Args[0]
+							if sl, ok := a.(*ast.SliceExpr); ok {
+								a = sl.X
+							}
+							if id, ok := a.(*ast.Ident); ok {
+								bufName = id.Name
+							}
 						}
 					}
 				}
 			}
-			if sel, ok := v.Fun.(*ast.SelectorExpr); ok {
-				if x, ok := sel.X.(*ast.Ident); ok {
-					if x.Name == "unicode" {
-						funcs[sel.Sel.Name] = true
-					}
-					if sel.Sel.Name == "Read" && bufName == "" && len(v.Args) == 1 {
-						a := v.Args[0]
-						if sl, ok := a.(*ast.SliceExpr); ok {
-							a = sl.X
-						}
-						if id, ok := a.(*ast.Ident); ok {
-							bufName = id.Name
-						}
-					}
-				}
-			}
-		}
-		return true
-	})
+			return true
+		})
+	}
 	if keepName != "" {
 		keepExpr = defines[keepName]
 	}
-	be, ok := makes[bufName]
-	if !ok {
-		return nil, fmt.Errorf("no make([]byte, …) found for the read buffer %q", bufName)
-	}
-	if f.bufSize, f.bufLean, err = ev.num(be); err != nil {
-		return nil, err
-	}
-	f.bufSrc = bufName + " := make([]byte, " + c20NodeText(fset, src, be) + ")"
-	if keepExpr != nil {
-		if f.keep, f.keepLean, err = ev.num(keepExpr); err != nil {
-			return nil, err
-		}
-		f.keepSrc = keepName + " := " + c20NodeText(fset, src, keepExpr)
+	f.bufSize, f.bufLean, f.bufSrc = c20Ref.bufSize, fmt.Sprint(c20Ref.bufSize), "(NOT TRANSLATED: reference value)"
+	if be, ok := makes[bufName]; !ok {
+		problem("no make([]byte, …) found for the buffer %q handed to Read", bufName)
+	} else if n, s, err := ev.num(be); err != nil {
+		problem("size of the read buffer (%v): %v", c20NodeText(fset, src, be), err)
 	} else {
+		f.bufSize, f.bufLean = n, s
+		f.bufSrc = bufName + " := make([]byte, " + c20NodeText(fset, src, be) + ")"
+	}
+	switch {
+	case keepName == "":
 		f.keep, f.keepLean, f.keepSrc = 0, "0", "(no `copy(buf, window[len(window)-keep:])` in RunPackedBinary: nothing of a block is kept)"
+	case keepExpr == nil:
+		problem("no definition `%v := …` found for the number of bytes kept", keepName)
+		f.keep, f.keepLean, f.keepSrc = c20Ref.keep, fmt.Sprint(c20Ref.keep), "(NOT TRANSLATED: reference value)"
+	default:
+		if n, s, err := ev.num(keepExpr); err != nil {
+			problem("%v := %v: %v", keepName, c20NodeText(fset, src, keepExpr), err)
+			f.keep, f.keepLean, f.keepSrc = c20Ref.keep, fmt.Sprint(c20Ref.keep), "(NOT TRANSLATED: reference value)"
+		} else {
+			f.keep, f.keepLean = n, s
+			f.keepSrc = keepName + " := " + c20NodeText(fset, src, keepExpr)
+		}
 	}
 	for k := range funcs {
 		f.skipFuncs = append(f.skipFuncs, k)
 	}
 	sort.Strings(f.skipFuncs)
 	f.hasSkipLoop = len(f.skipFuncs) > 0
+
+	// cli/ecal.go: the first statement of main is the unconditional call tool.RunPackedBinary()
+	mpath := filepath.Join(repoDir(), "cli", "ecal.go")
+	if msrc, err := os.ReadFile(mpath); err != nil {
+		problem("cli/ecal.go: %v", err)
+	} else if mfile, err := parser.ParseFile(fset, mpath, msrc, 0); err != nil {
+		problem("cli/ecal.go: %v", err)
+	} else {
+		f.mainSrc = "(func main not found)"
+		for _, d := range mfile.Decls {
+			fd, ok := d.(*ast.FuncDecl)
+			if !ok || fd.Name.Name != "main" || fd.Recv != nil || fd.Body == nil {
+				continue
+			}
+			f.mainSrc = "(main is empty)"
+			if len(fd.Body.List) == 0 {
+				break
+			}
+			first := fd.Body.List[0]
+			f.mainSrc = c20NodeText(fset, msrc, first)
+			if len(f.mainSrc) > 120 {
+				f.mainSrc = f.mainSrc[:120] + " …"
+			}
+			if es, ok := first.(*ast.ExprStmt); ok {
+				if c, ok := es.X.(*ast.CallExpr); ok && len(c.Args) == 0 {
+					if sel, ok := c.Fun.(*ast.SelectorExpr); ok && sel.Sel.Name == "RunPackedBinary" {
+						if x, ok := sel.X.(*ast.Ident); ok && x.Name == "tool" {
+							f.mainFirst = true
+						}
+					}
+				}
+			}
+		}
+	}
 	return f, nil
 }
 
@@ -434,6 +537,18 @@ func c20LeanFile(f *c20Facts) string {
 	}
 	fmt.Fprintf(&b, "/-- for every byte value: is it skipped after the marker? Computed with Go's unicode.%s\n    (the functions RunPackedBinary calls) -/\ndef skipTable : List Bool :=\n  [%s]\n\n",
 		strings.Join(f.skipFuncs, " || unicode."), strings.Join(tab, ", "))
+	var probs []string
+	for _, p := range f.problems {
+		probs = append(probs, strconv.Quote(strings.Map(func(r rune) rune {
+			if r < 32 || r > 126 {
+				return '?'
+			}
+			return r
+		}, p)))
+	}
+	fmt.Fprintf(&b, "/-- what the extractor could NOT translate (reference values were used there); must be empty -/\ndef extractProblems : List String := [%s]\n\n", strings.Join(probs, ", "))
+	fmt.Fprintf(&b, "/-- cli/ecal.go: is the first statement of `main` the unconditional call `tool.RunPackedBinary()`?\n    First statement found: `%s` -/\ndef mainCallsRunPackedFirst : Bool := %v\n\n",
+		strings.ReplaceAll(strings.ReplaceAll(f.mainSrc, "-/", "- /"), "/-", "/ -"), f.mainFirst)
 	b.WriteString("end Ecal.Gen.C20\n")
 	return b.String()
 }
@@ -443,6 +558,13 @@ func c20Tool(args []string) int {
 	if err != nil {
 		fmt.Fprintln(os.Stderr, "C20 extract:", err)
 		return 1
+	}
+	if len(args) >= 2 && args[0] == "buildcli" {
+		if err := c20BuildCLI(args[1]); err != nil {
+			fmt.Fprintln(os.Stderr, "C20 buildcli:", err)
+			return 1
+		}
+		return 0
 	}
 	if len(args) >= 2 && args[0] == "extract" {
 		if err := os.WriteFile(args[1], []byte(c20LeanFile(f)), 0644); err != nil {
@@ -624,10 +746,136 @@ func c20Many() map[string]string {
 	return m
 }
 
+// ---------------------------------------------------------------- the real executable
+
+const c20CLIName = "ecal-cli"
+const c20Token = "C20-ENTRY-RAN"
+
+// c20BuildCLI builds the plain command line program (package main in cli/, no build
+// tags) of the tree under test into out. go.mod/go.sum are copied next to the output so
+// that nothing is written into the source tree (-modfile).
+func c20BuildCLI(out string) error {
+	out, err := filepath.Abs(out)
+	if err != nil {
+		return err
+	}
+	dir := out + ".mod"
+	if err := os.MkdirAll(dir, 0755); err != nil {
+		return err
+	}
+	for _, n := range []string{"go.mod", "go.sum"} {
+		b, err := os.ReadFile(filepath.Join(repoDir(), n))
+		if err != nil {
+			return err
+		}
+		if err := os.WriteFile(filepath.Join(dir, n), b, 0644); err != nil {
+			return err
+		}
+	}
+	tmp := fmt.Sprintf("%s.%d.tmp", out, os.Getpid())
+	cmd := exec.Command("go", "build", "-modfile="+filepath.Join(dir, "go.mod"), "-o", tmp, "./cli")
+	cmd.Dir = repoDir()
+	cmd.Env = append(os.Environ(), "GOFLAGS=-mod=mod", "GOPROXY=off", "GOSUMDB=off", "CGO_ENABLED=0")
+	if o, err := cmd.CombinedOutput(); err != nil {
+		return fmt.Errorf("go build ./cli: %v: %s", err, oneLine(string(o)))
+	}
+	return os.Rename(tmp, out)
+}
+
+// c20RunProc: payload `proc <tree> <rc> <arg-hex,arg-hex…|->`. The real CLI binary is
+// packed with the real packer and started as a child process with the arguments.
+// result: `proc srcmarker=<0|1> exit=<code> entry=<ran|notrun> clean=<0|1>` — clean: nothing
+// but the entry's own log line was printed (no usage text, prompt or error of the plain CLI).
+func c20RunProc(fs []string) string {
+	if len(fs) != 4 {
+		return "bad-payload"
+	}
+	treeNo, _ := strconv.Atoi(fs[1])
+	rc, _ := strconv.Atoi(fs[2])
+	var args []string
+	if fs[3] != "-" {
+		for _, a := range strings.Split(fs[3], ",") {
+			args = append(args, unhx(a))
+		}
+	}
+	tree := c20Trees[treeNo]
+	cli, err := filepath.Abs(c20CLIName)
+	if err != nil {
+		return "ERR " + oneLine(err.Error())
+	}
+	if _, err := os.Stat(cli); err != nil {
+		// single-case runs (replay): build it here
+		if err := c20BuildCLI(cli); err != nil {
+			return "ERR " + oneLine(err.Error())
+		}
+	}
+	bin, err := os.ReadFile(cli)
+	if err != nil {
+		return "ERR " + oneLine(err.Error())
+	}
+	// hypothesis of scan_finds_archive for the real interpreter: no marker occurrence starts inside it
+	mk := c20FactsCached().marker
+	srcmarker := 0
+	if bytes.Contains(append(append([]byte{}, bin[max(0, len(bin)-len(mk)):]...), mk[:len(mk)-1]...), mk) || bytes.Contains(bin, mk) {
+		srcmarker = 1
+	}
+	dst := filepath.Join(c20Scratch, "app.bin")
+	entry := filepath.Join(c20Scratch, "entry.ecal")
+	cwd := filepath.Join(c20Scratch, "cwd")
+	os.RemoveAll(cwd)
+	if err := os.MkdirAll(cwd, 0755); err != nil {
+		return "ERR " + oneLine(err.Error())
+	}
+	defer os.Remove(dst)
+	defer os.RemoveAll(cwd)
+	entryText := "log(\"" + c20Token + "\")\n" + fmt.Sprintf(tree.entry, rc)
+	if err := os.WriteFile(entry, []byte(entryText), 0644); err != nil {
+		return "ERR " + oneLine(err.Error())
+	}
+	p := tool.NewCLIPacker()
+	p.LogOut = io.Discard
+	p.Dir, p.SourceBinary, p.TargetBinary, p.EntryFile = &tree.dir, &cli, &dst, entry
+	if err := p.Pack(); err != nil {
+		return "ERR pack " + oneLine(err.Error())
+	}
+	os.Chmod(dst, 0755)
+	ctx, cancel := context.WithTimeout(context.Background(), 40*time.Second)
+	defer cancel()
+	cmd := exec.CommandContext(ctx, dst, args...)
+	cmd.Dir = cwd
+	cmd.Stdin = strings.NewReader("")
+	cmd.Env = append(os.Environ(), "HOME="+cwd)
+	out, err := cmd.CombinedOutput()
+	code := 0
+	if ctx.Err() != nil {
+		return fmt.Sprintf("proc srcmarker=%d timeout", srcmarker)
+	}
+	if err != nil {
+		ee, ok := err.(*exec.ExitError)
+		if !ok {
+			return "ERR start " + oneLine(err.Error())
+		}
+		code = ee.ExitCode()
+	}
+	ran, clean := "notrun", 1
+	for _, l := range strings.Split(string(out), "\n") {
+		if strings.Contains(l, c20Token) {
+			ran = "ran"
+		} else if strings.TrimSpace(l) != "" {
+			clean = 0
+		}
+	}
+	CountRun("process started")
+	return fmt.Sprintf("proc srcmarker=%d exit=%d entry=%s clean=%d", srcmarker, code, ran, clean)
+}
+
 // ---------------------------------------------------------------- one case
 
 func c20Run(payload string) string {
 	fs := strings.Split(payload, " ")
+	if fs[0] == "proc" {
+		return c20RunProc(fs)
+	}
 	if len(fs) != 9 {
 		return "bad-payload"
 	}
@@ -834,6 +1082,28 @@ func c20Gen(g *Gen) {
 	for _, n := range []int{4095, 4107, 4108, 4123, 8191, 4096 - len(M), 4096 + 4124 + 4095} {
 		for kind := 0; kind < 3; kind++ {
 			emit("corpus", true, n, kind, nil, "", 0, 3+kind)
+		}
+	}
+	// 1b. the real executable: the CLI of the tree under test, packed, started as a child
+	//     process with different command lines — the entry must run whatever the arguments are
+	argLists := [][]string{{}, {"hello"}, {"-x", "1"}, {"run"}, {"run", "job1"}, {"format"}, {"pack"}, {"console"}, {"debug"}}
+	procTrees := []int{1, 0}
+	if g.Thorough() {
+		argLists = append(argLists, []string{"-help"}, []string{"run", "-dir", ".", "x.ecal"}, []string{"debug", "-server"})
+		procTrees = []int{1, 0, 2, 3, 5}
+	}
+	for ti, t := range procTrees {
+		for ai, al := range argLists {
+			as := "-"
+			if len(al) > 0 {
+				var hs []string
+				for _, a := range al {
+					hs = append(hs, hx(a))
+				}
+				as = strings.Join(hs, ",")
+			}
+			g.Count("real process")
+			g.Emit(fmt.Sprintf("proc %d %d %s", t, 20+ti*40+ai, as))
 		}
 	}
 	// 2. project trees on binaries whose end lies around the block boundaries
